@@ -120,6 +120,9 @@ def runCloseModel (c : CaseIn) : String :=
       else if kind = "wO" then
         -- a connection stalled in the body of an oversized message: nothing is admitted
         go r s held blocked ((a ++ ":stall") :: acc)
+      else if kind = "wZ" then
+        -- a complete oversized message: skipped and answered whatever the state of the shutdown, no command admitted
+        go r s held blocked ((a ++ ":rec") :: acc)
       else if kind = "wP" then
         -- the closing check: refused at once when closing is set, otherwise held before wg.Add
         if s.closing then go r ((Conc.step (.worker idx) s).getD s) held blocked ((a ++ ":ref") :: acc)
